@@ -1527,3 +1527,13 @@ pub fn frag_size_options(mut modifier: String, mut zeroes: i32) -> (Option<human
     r, d = frag_record('frag_size_options', 'src/util/mod.rs', 'fn format_filesize / statements from `let fixed_at;` up to `let format_options = ..` (verbatim); the use of (format, fixed_at, zeroes, space) in format_options is checked by shape',
                        t, t, ['humansize::{FixedAt, BINARY, DECIMAL, WINDOWS} -> shim enums'], 'the specifier regex (precision / space / unit capture), humansize rendering, the kB/short-unit text replacements')
     return dict(functions=[r], dropped=[d], assumptions=['humansize: BINARY = 1024-based with KiB.. units, DECIMAL = 1000-based with kB.., WINDOWS = 1024-based with KB.. units; FixedAt fixes the unit'])
+
+
+def unit_functionnames(inj, scratch):
+    rel = 'src/function.rs'
+    s = src(rel, scratch)
+    inj.append(rel, H('functionnames.kani.rs'))
+    impl = s.item('impl', r'FromStr\s+for\s+Function')
+    it = s.item('fn', 'from_str', (impl['open'], impl['close']))
+    return dict(functions=[{'fn': 'Function::from_str', 'file': rel, 'engine': 'K', 'how': 'whole real function; postcondition asserted over every documented alias in an appended harness',
+                            'sha256_16': sha(s.text_of(it))}], dropped=[])
